@@ -971,8 +971,9 @@ void TasmanianSparseGrid::setSurplusRefinement(double tolerance, TypeRefinement 
 void TasmanianSparseGrid::setSurplusRefinement(double tolerance, TypeRefinement criteria, int output, const std::vector<int> &level_limits, const std::vector<double> &scale_correction){
     if (empty()) throw std::runtime_error("ERROR: calling setSurplusRefinement() for a grid that has not been initialized");
     int dims = base->getNumDimensions();
-    size_t nscale = (size_t) base->getNumNeeded();
-    if (output != -1) nscale *= (size_t) base->getNumOutputs();
+    // one weight per loaded point and active output, the active outputs are either all (output == -1) or just one
+    size_t nscale = (size_t) base->getNumLoaded();
+    if (output == -1) nscale *= (size_t) base->getNumOutputs();
     if ((!level_limits.empty()) && (level_limits.size() != (size_t) dims)) throw std::invalid_argument("ERROR: setSurplusRefinement() requires level_limits with either 0 or dimenions entries");
     if ((!scale_correction.empty()) && (scale_correction.size() != nscale)) throw std::invalid_argument("ERROR: setSurplusRefinement() incorrect size for scale_correction");
 
